@@ -1,0 +1,15 @@
+//go:build verif
+
+package convert_utf8_bytes
+
+// Contracts for the verification harness under /verif (comment-only file).
+//
+// C13: the escape-sequence rewriter walks the string value of an event field;
+// it is checked panic-free (index, slice bounds) for every string content.
+
+//@ func (*Plugin).convert
+//@   loop 2 invariant 2 <= pos && pos <= len(nodeStr)
+//@   callee AsString(n) (r)
+//@     pure
+//@   callee MutateToString(n, s) (r)
+//@     havoc *n
